@@ -119,6 +119,7 @@ pub fn inline_menu() -> Vec<Vec<N>> {
         vec![ea("img", &[("src", "/s"), ("alt", "qm")], vec![])],
         vec![e("strong", vec![t("qn"), e("code", vec![t("qo")])]), t("qp")],
         vec![e("del", vec![t("qs qu")]), t(" e\u{301}t")],
+        vec![e("em", vec![t("qv")]), t(" "), e("strong", vec![t("qw")]), t(" "), e("code", vec![t("qx")])],
     ]
 }
 
